@@ -27,6 +27,9 @@ DRIVER = os.path.join(LEAN, ".lake", "build", "bin", "driver")
 sys.path.insert(0, os.path.join(REPO, "src"))
 os.environ.setdefault("PYTHONDONTWRITEBYTECODE", "1")
 sys.dont_write_bytecode = True
+import logging  # noqa: E402
+
+logging.disable(logging.CRITICAL)  # the library logs every injected failure; keep the check's output to verdict lines
 
 ALLOWED_AXIOMS = {"propext", "Classical.choice", "Quot.sound"}
 FORBIDDEN = re.compile(
